@@ -97,12 +97,16 @@ type worker struct {
 	triage    time.Duration // hard limit of the fast triage per input
 	ngBase    int
 	leakedNow int
+	slow      int
 }
 
 func workerMain() {
 	runtime.GOMAXPROCS(4)
 	debug.SetGCPercent(400)
-	w := &worker{tr: NewTracer(), out: bufio.NewWriterSize(os.Stdout, 1<<16), triage: 3 * time.Second}
+	w := &worker{tr: NewTracer(), out: bufio.NewWriterSize(os.Stdout, 1<<16), triage: 3 * time.Second, slow: 1}
+	if os.Getenv("VERIF_TRIAGE_SLOW") != "" {
+		w.slow = 50
+	}
 	if v := os.Getenv("VERIF_TRIAGE_MS"); v != "" {
 		var ms int
 		fmt.Sscan(v, &ms)
@@ -190,18 +194,21 @@ func (w *worker) runOne(in *Input) Result {
 	}()
 	var d parseDone
 	finished := false
+	// fast triage (w.slow = 1) or slow lane (w.slow = 50, used to re-run
+	// suspicions that the probe did not reproduce)
+	unit := time.Duration(w.slow) * time.Millisecond
 	select {
 	case d = <-done:
 		finished = true
 	case fn := <-w.tr.parked:
 		res.Outcome, res.Spin, res.Frame = "suspect", "steps", fn
-	case <-time.After(3 * time.Millisecond):
+	case <-time.After(2 * unit):
 	}
 	if !finished && res.Outcome == "" {
-		// monitoring: no hook event for 3 consecutive samples => look at the stacks
+		// monitoring: no hook event for 2 consecutive samples => look at the stacks
 		last := w.tr.Progress()
 		still := 0
-		deadline := time.Now().Add(w.triage)
+		deadline := time.Now().Add(w.triage * time.Duration(w.slow))
 	loop:
 		for {
 			select {
@@ -211,7 +218,7 @@ func (w *worker) runOne(in *Input) Result {
 			case fn := <-w.tr.parked:
 				res.Outcome, res.Spin, res.Frame = "suspect", "steps", fn
 				break loop
-			case <-time.After(2 * time.Millisecond):
+			case <-time.After(unit):
 			}
 			now := w.tr.Progress()
 			if now == last {
@@ -219,9 +226,9 @@ func (w *worker) runOne(in *Input) Result {
 			} else {
 				still, last = 0, now
 			}
-			if still >= 3 {
+			if still >= 2 {
 				k1, f1, st1 := classifyStacks()
-				time.Sleep(10 * time.Millisecond)
+				time.Sleep(4 * unit)
 				k2, f2, _ := classifyStacks()
 				if w.tr.Progress() == last && k1 != "" && k1 == k2 && f1 == f2 {
 					select {
